@@ -55,6 +55,9 @@ type c02Combo struct {
 
 var c02Combos []c02Combo
 
+// c02FlagGroup: index of the first of the 256 combos "one per value of the flags byte"
+var c02FlagGroup int
+
 func init() {
 	lens := []int{0, 1, 3}
 	for mask := 0; mask < 32; mask++ {
@@ -90,6 +93,29 @@ func init() {
 				c02Combos = append(c02Combos, c02Combo{a, c03Show(&a)})
 			}
 		}
+	}
+	// all 256 values of the flags byte with a consistent layout (the three indicator bits x the 32 presence
+	// subsets; private data of 2 bytes, extension of 1 byte)
+	c02FlagGroup = len(c02Combos)
+	for flags := 0; flags < 256; flags++ {
+		var a ref.AF
+		a.Disc, a.RAI, a.ESPrio = flags&0x80 != 0, flags&0x40 != 0, flags&0x20 != 0
+		if flags&0x10 != 0 {
+			a.PCR = ref.PCRBytes(uint64(flags)*300*90000 + 17)
+		}
+		if flags&0x08 != 0 {
+			a.OPCR = ref.PCRBytes(uint64(flags) * 12345)
+		}
+		if flags&0x04 != 0 {
+			a.Splice = []byte{byte(flags)}
+		}
+		if flags&0x02 != 0 {
+			a.Private = c03Data(0xA0, 2)
+		}
+		if flags&0x01 != 0 {
+			a.Ext = c02ExtData(1)
+		}
+		c02Combos = append(c02Combos, c02Combo{a, c03Show(&a)})
 	}
 	// near-maximal fields: for every presence subset with private data (and/or extension), lengths that
 	// leave 0..6 bytes of room in a 183-byte field (length bytes and data close to the end of the packet)
@@ -716,7 +742,7 @@ func init() {
 		Scenarios: []engine.ScenarioRunner{
 			&engine.Enum[c02Case]{
 				Name: "setpayload",
-				Rule: "case = well-formed packet shape: adaptation field none / length 0..182 with payload / 183 adaptation-field-only / 183 with the payload flag and a zero-length payload x optional-field combination (all 32 presence subsets x private/extension lengths {0,1,3} that fit, plus near-maximal private data / extension leaving 0..6 bytes of room in the packet) x header pattern x old-payload fill (quick: 4 paired header/fill patterns; thorough: all 16); Check first customises objects obtained from NewAdaptationField() and New() (they belong to somebody else: nothing of them may show later), then runs the partition accessors on the packet, SetPayload with every length 0..200 x 2 contents (exact reference packet, count, partition/read-back, independence of the method-form copy) and a second SetPayload of 8 boundary lengths on 7 of the results",
+				Rule: "case = well-formed packet shape: adaptation field none / length 0..182 with payload / 183 adaptation-field-only / 183 with the payload flag and a zero-length payload x optional-field combination (all 32 presence subsets x private/extension lengths {0,1,3} that fit, plus ALL 256 values of the flags byte with a consistent layout [quick: every 4th adaptation_field_length, rotating with the value, and all from 176 up], plus near-maximal private data / extension leaving 0..6 bytes of room in the packet) x header pattern x old-payload fill (quick: 4 paired header/fill patterns; thorough: all 16); Check first customises objects obtained from NewAdaptationField() and New() (they belong to somebody else: nothing of them may show later), then runs the partition accessors on the packet, SetPayload with every length 0..200 x 2 contents (exact reference packet, count, partition/read-back, independence of the method-form copy) and a second SetPayload of 8 boundary lengths on 7 of the results",
 				Gen: func(r *engine.Run, emit func(c02Case)) {
 					for afLen := -1; afLen <= 183; afLen++ {
 						for combo := range c02Combos {
@@ -727,6 +753,9 @@ func init() {
 								h, f := hf/4, hf%4
 								if !r.Thorough() && h != f {
 									continue
+								}
+								if !r.Thorough() && combo >= c02FlagGroup && combo < c02FlagGroup+256 && (hf != 0 || (afLen < 176 && (afLen+combo)%4 != 0)) {
+									continue // quick: the flags-byte group with one header pattern and every 4th length (rotating), all lengths from 176 up
 								}
 								c := c02Case{afLen, combo, h, f}
 								if _, ok := c02Build(c); ok {
